@@ -16,6 +16,22 @@ CFG = {
         "Swat4.C16.discover_order",
         "Swat4.C16.submission_order",
         "Swat4.C16.retry_order",
+        "Swat4.C16.runChoices_steps",
+        "Swat4.C16.report_backed",
+        "Swat4.C16.addServer_backed",
+        "Swat4.C16.probe_backed",
+        "Swat4.C16.probeRetry_backed",
+        "Swat4.C16.probe_complete_backed",
+        "Swat4.C16.runChoices_ok_eq_run",
+        "Swat4.C16.refresh_revive_backed",
+        "Swat4.C16.renew_remove_backed",
+        "Swat4.C16.keyed_preserved",
+        "Swat4.C16.backedB_correct",
+        "Swat4.C16.C16_holder_counterexample",
+        "Swat4.C16.C16_holder_completes",
+        "Swat4.C16.C16_interleaved",
+        "Swat4.C16.address_hypotheses_needed",
+        "Swat4.C16.stale_readd_unbacked",
     ],
     "shards": (1, 16),
     "nontrivial": _nontrivial,
@@ -33,17 +49,32 @@ CFG = {
     ],
     "trusted_base": COMMON_TRUSTED,
     "manifest": {
-        "text": "Lean theorems: the enqueue precedes the mark in all three mark-setting paths (discover_order, submission_order — the repaired order —, "
-                "retry_order), enqueueing preserves Backed, reports/keepalives add no mark, only an outcome of a probe of that goal clears a mark, marked "
-                "servers are skipped by refresh/revival/re-submission. The per-crash-point statement is decided by the correspondence run: every crash "
-                "and fault placement at every storage command of every mark-setting or mark-consuming use case on the real code, with the Backed oracle "
-                "on the final keyspace. Two genuine violations are recorded as known findings with signatures (holder-loss: the destructive pop; "
-                "consumed-before-mark: enqueue and mark are not atomic); any other orphaned mark is a violation.",
-        "level_note": "Partial as a proof: the invariant theorem over all crash/fault placements (Backed preserved by every use case prefix) is not yet a Lean "
-                      "theorem for the composed programs; what is proved is the ordering discipline and the status algebra it rests on. Trusted: Lean kernel; "
-                      "the USys model validated by the differential run; the scheduler hook's crash/fault injection; known_findings.json signatures computed by "
-                      "the Lean driver from the implementation's call order and results.",
-        "technique": "Lean 4 proof of the ordering discipline + exhaustive crash/fault placement on the real code against the model and the Backed oracle",
+        "text": "Lean theorems over the use-case programs (Prog) and a crash/fault-aware run (Prog.runChoices: every call succeeds, fails without "
+                "effect or fails after taking effect; the run stops where the choice list ends = the client died at that call boundary): "
+                "report_backed, addServer_backed (the repaired order), refresh_revive_backed, renew_remove_backed — from any Backed, Keyed store these "
+                "use cases leave every retry mark backed at EVERY crash point under EVERY fault placement; probe_backed / probeRetry_backed — a prober "
+                "holding probe (a,g) never unbacks any OTHER mark, whatever the outcome and wherever it stops or fails; probe_complete_backed — run to "
+                "completion without faults it restores full Backed (success / final failure clear the mark, retry re-queues first); "
+                "C16_holder_counterexample — the known finding as a theorem: the holder stopped before/after its lookup or clock read, or its lookup / "
+                "re-enqueue failed without effect => the mark has no probe; C16_interleaved — in any system (USys) of non-popping clients (reporter, "
+                "REST submission, refresher, reviver, cleaners, listing) with valid addresses, under any interleaving of calls, deaths, faults and "
+                "clock ticks, Backed is invariant and the queue only grows. Plus the ordering discipline and status algebra (enqueue precedes mark in "
+                "all three mark-setting paths, reports/keepalives add no mark, only an outcome of a probe of that goal clears a mark, marked servers "
+                "are skipped). The correspondence run validates the model on the real code: every crash and fault placement at every storage command "
+                "of every mark-setting or mark-consuming use case, Backed oracle (backedB, proved correct: backedB_correct) on the final keyspace. "
+                "stale_readd_unbacked: a further race in the model (no crash, no fault; needs a popper and a removal between a reporter's lookup and "
+                "its Add, which stores the stale marked copy) — outside the harness' scenarios, reported. "
+                "Two genuine violations are recorded as known findings with signatures (holder-loss: the destructive pop; consumed-before-mark: enqueue "
+                "and mark are not atomic and a popper ran in between); any other orphaned mark is a violation.",
+        "level_note": "Proved for all inputs at the level of the call-granularity model: per-program crash/fault invariance (single client, clock fixed during "
+                      "the run) and the interleaved invariant for systems WITHOUT a popper. Not a Lean theorem: the interleaved invariant with live holders "
+                      "(poppers) in the system — DESIGN's backed_step with the 'or a live client holds (a,g)' disjunct; there the consumed-before-mark "
+                      "finding is a genuine counterexample to the unconditional statement, and the per-program theorems (probe_backed, "
+                      "probe_complete_backed) state the holder's obligation instead. The interleaved theorem assumes valid addresses (ports 1..65535): "
+                      "the model's Addr.key is injective only there. Trusted: Lean kernel; the USys/Prog model validated by the differential run; the "
+                      "scheduler hook's crash/fault injection; known_findings.json signatures computed by the Lean driver from the implementation's call "
+                      "order and results.",
+        "technique": "Lean 4 invariant proofs over use-case programs (ghost-knowledge walk of the program tree, every crash/fault prefix; interleaved system without poppers) + exhaustive crash/fault placement on the real code against the model and the Backed oracle",
         "design_ref": "DESIGN.md §5 C16",
     },
 }
